@@ -55,11 +55,13 @@ Base3 ==
                                 [F("p1", 9, 1, 9, "") EXCEPT !.oneof = 2, !.p3opt = TRUE]>>,
                    !.oneofs = <<[name |-> "o"], [name |-> "_p1"]>>]>>,
      !.enums = <<NewEnum("E1", 0, <<Val("E1_A", 0), Val("E1_B", 2)>>)>>,
+     \* (extensions are listed by parent, the file's first)
      !.exts = <<[F("sx", 1001, 1, 9, "") EXCEPT !.extendee = ".google.protobuf.MessageOptions"],
-                [F("rx", 1002, 3, 9, "") EXCEPT !.extendee = ".google.protobuf.MessageOptions", !.parent = 1],
-                [F("px", 1003, 1, 9, "") EXCEPT !.extendee = ".google.protobuf.MessageOptions", !.p3opt = TRUE]>>]
+                [F("px", 1003, 1, 9, "") EXCEPT !.extendee = ".google.protobuf.MessageOptions", !.p3opt = TRUE],
+                [F("rx", 1002, 3, 9, "") EXCEPT !.extendee = ".google.protobuf.MessageOptions", !.parent = 1]>>]
 Bases == {Base2, Base3}
-ASSUME \A g \in Bases : Valid(g, FALSE) /\ Translatable(g)
+ASSUME \A g \in Bases : /\ Valid(g, FALSE) /\ Translatable(g)
+                         /\ \A i \in 1..(Len(g.exts) - 1) : g.exts[i].parent <= g.exts[i + 1].parent     \* canonical order
 
 Payloads == {<<>>, <<97>>, <<195, 169>>, <<226, 130, 172>>,          \* "", "a", U+00E9, U+20AC
              <<255>>, <<195>>, <<128>>, <<192, 128>>}                \* never valid, truncated, stray continuation, overlong NUL
